@@ -30,7 +30,8 @@ ID = "C15"
 LEVEL = "exploration"
 ENGINE = "seq"
 RUNS = {"quick": 80_000, "thorough": 3_000_000}
-RULE = ("seeded histories: 2-3 operations (priorities 0..3, all started first, sometimes at different virtual times), 2-3 "
+RULE = ("seeded histories: 2-3 operations (in about a third of the runs 4-5 operations and up to 4 resources, so that waits that "
+        "do not lead into a cycle can coexist with one) (priorities 0..3, all started first, sometimes at different virtual times), 2-3 "
         "resources (each pre-emptable or not), then depth <=8 (quick) / <=14 (thorough) steps, ~70 % acquisitions biased "
         "towards resources somebody else holds (re-entrant and repeated attempts included), the rest release / complete / "
         "abort (more often for operations that are blocked or waited on) / re-start of an ended id / controller.advance at "
@@ -67,17 +68,18 @@ EXPECT_PROBES = ("blocked", "preempted", "reentrant", "ref_cycle", "ref_cycle_3"
                  "cycle_all_members_exempt", "victim_is_exempt_member", "victim_judged_with_exempt_other_member",
                  "manual_kill", "cycle_with_member_restarted_after_watchdog_kill",
                  "victim_was_killed_by_this_watchdog_before", "reported_edges_judged", "reported_edges_judged_ring3",
-                 "timeout_of_a_bystander_in_the_sweep_of_a_deadlock")
+                 "timeout_of_a_bystander_in_the_sweep_of_a_deadlock", "ref_cycle_with_unrelated_bystander_wait",
+                 "four_or_more_operations")
 
-OPS = ["A", "B", "C"]
-RES = ["r0", "r1", "r2"]
+OPS = ["A", "B", "C", "D", "E"]
+RES = ["r0", "r1", "r2", "r3"]
 LIMIT = 60.0
 
 
 # ------------------------------------------------------------------------------------------ generator
 def gen(rng, tier, i):
-    nops = rng.choice([2, 2, 3, 3, 3])
-    nres = rng.choice([2, 2, 3])
+    nops = rng.choice([2, 2, 3, 3, 3, 3, 4, 4, 5])
+    nres = rng.choice([2, 2, 3, 3, 4]) if nops <= 3 else rng.choice([3, 3, 4])
     res = {r: rng.random() < 0.3 for r in RES[:nres]}
     if rng.random() < 0.5:
         res = {r: False for r in res}
@@ -101,7 +103,34 @@ def gen(rng, tier, i):
     p_restart = rng.choice([0.0, 0.4, 0.6, 0.8])
     pending = []    # restarts to place after the next step
     p_acq = rng.choice([0.6, 0.7, 0.7, 0.8])
-    if rng.random() < 0.2 and nres >= 2:
+    if nops >= 4 and rng.random() < 0.35:
+        # bystander-chain family: a wait-for cycle with nobody waiting into it, plus an unrelated blocked operation whose
+        # chain ends at somebody who waits for nothing (needs a 4th operation)
+        names = list(OPS[:nops])
+        rng.shuffle(names)
+        rs = list(RES[:nres])
+        rng.shuffle(rs)
+        ncyc = 3 if (nops == 5 and nres == 4 and rng.random() < 0.4) else 2
+        cyc, rest = names[:ncyc], names[ncyc:]
+        ring = [["acq", cyc[j], rs[j]] for j in range(ncyc)] + [["acq", cyc[j], rs[(j + 1) % ncyc]] for j in range(ncyc)]
+        chain = [["acq", rest[0], rs[ncyc]], ["acq", rest[1], rs[ncyc]]]
+        if len(rest) > 2 and rng.random() < 0.5:
+            chain.append(["acq", rest[2], rs[ncyc]])
+        order = rng.choice(["chain_first", "ring_first", "mixed"])
+        if order == "chain_first":
+            ops = chain + ring
+        elif order == "ring_first":
+            ops = ring + chain
+        else:
+            ops = ring[:ncyc] + chain + ring[ncyc:]
+        tail = rng.choice([[], [["wd"]], [["check"], ["complete", rest[0]]], [["wd"], ["abort", rest[1]], ["wd"]]])
+        ops = ops + tail
+        for j in range(ncyc):
+            held[rs[j]] = cyc[j]
+        held[rs[ncyc]] = rest[0]
+        wants.update(cyc + [rest[1]])
+        depth = max(depth, len(ops) + 1)
+    elif rng.random() < 0.2 and nres >= 2:
         # ring family: everybody takes one resource, then asks for the neighbour's (noise follows / is interleaved)
         n = min(nops, nres) if rng.random() < 0.7 else 2
         ring = [["acq", OPS[j], RES[j]] for j in range(n)] + [["acq", OPS[j], RES[(j + 1) % n]] for j in range(n)]
@@ -114,7 +143,7 @@ def gen(rng, tier, i):
             perm = rng.sample([0, 1, 2, 3], 3)
             for e in pre:
                 if e[0] == "start":
-                    e[2] = perm[OPS.index(e[1])]
+                    e[2] = perm[OPS.index(e[1])] if OPS.index(e[1]) < 3 else e[2]
             prio_of = {e[1]: e[2] for e in pre if e[0] == "start"}
             ops = ops + [["wd"]]
         for j in range(n):
@@ -152,7 +181,7 @@ def gen(rng, tier, i):
     elif rng.random() < 0.07 and nops == 3:
         # time-out bystander family: an unrelated third operation trips the operation time limit in the very sweep in
         # which a deadlock of the two others is reported
-        c_, a, b = rng.sample(OPS, 3)
+        c_, a, b = rng.sample(OPS[:3], 3)
         cfg["limit"] = True
         pre = [["start", c_, prio_of.get(c_, 0)], ["clock", LIMIT + 1.0], ["start", a, prio_of.get(a, 0)]]
         if rng.random() < 0.5:
@@ -192,8 +221,8 @@ def gen(rng, tier, i):
     elif rng.random() < 0.07 and nres == 3 and nops == 3:
         # side-wait family: a cycle member first blocks on a resource of a bystander who waits for nobody (a dead end of
         # the wait-for graph), then on the resource that closes the cycle
-        by_, b_, a_ = rng.sample(OPS, 3)
-        rs = list(RES)
+        by_, b_, a_ = rng.sample(OPS[:3], 3)
+        rs = list(RES[:3])
         rng.shuffle(rs)
         ops = [["acq", by_, rs[0]], ["acq", b_, rs[1]], ["acq", a_, rs[2]], ["acq", a_, rs[0]], ["acq", a_, rs[1]],
                ["acq", b_, rs[2]]]
@@ -213,7 +242,7 @@ def gen(rng, tier, i):
     elif rng.random() < 0.1 and nres == 3:
         # double-wait family: W waits for two resources of H; H gives one back and then wants something of W
         h_, w_ = rng.sample(OPS[:nops], 2)
-        rs = list(RES)
+        rs = list(RES[:3])
         rng.shuffle(rs)
         ops = [["acq", h_, rs[0]], ["acq", h_, rs[1]], ["acq", w_, rs[2]], ["acq", w_, rs[0]], ["acq", w_, rs[1]],
                ["rel", h_, rs[1]], ["acq", h_, rs[2]]]
@@ -502,6 +531,9 @@ def run(plan, k):
             k.probe("ref_cycle")
             if len(scyc) >= 3:
                 k.probe("ref_cycle_3")
+            members = set(scyc)
+            if any(a not in members and b not in members for a, b, _ in strict):
+                k.probe("ref_cycle_with_unrelated_bystander_wait")
         if reported is not None:
             k.probe("reported_cycle")
             if scyc:
@@ -784,6 +816,8 @@ def run(plan, k):
                 raise HarnessError(f"unknown op {op}")
             ref.after_step()
             judge(step_i, cls, actor, tr)
+    if len(used) >= 4:
+        k.probe("four_or_more_operations")
     k.key = [cfg, plan.get("pre", []), plan["ops"]]
     if any_blocked:
         k.nontrivial = True
